@@ -56,6 +56,8 @@ type negoScn struct {
 	NoReneg bool `json:"no_reneg"`
 	// KSReverse: the parrot's spec as a custom spec whose key_share entries are listed in the opposite order
 	KSReverse bool `json:"ks_reverse"`
+	// KSList: the parrot's spec as a custom spec whose key_share extension carries exactly these groups, in this order
+	KSList []int `json:"ks_list"`
 	// FPCopy: the client is a custom spec obtained by fingerprinting a hello built from the parrot
 	FPCopy bool `json:"fp_copy"`
 	// PriorID: a connection with this other ClientHelloID is made first on the same *Config object
@@ -354,7 +356,7 @@ func runNego(s negoScn, rawScn json.RawMessage, pk *hlib.PKI, certs map[string]t
 	}
 	nch := 0
 	runID := id
-	if s.NoReneg || s.KSReverse || s.FPCopy || len(s.ExtraExts) > 0 {
+	if s.NoReneg || s.KSReverse || s.FPCopy || len(s.ExtraExts) > 0 || len(s.KSList) > 0 {
 		runID = tls.HelloCustom
 	}
 	r := hlib.RunHandshake(ccfg, scfg, runID, hlib.HSOpts{Timeout: 5 * time.Second, Echo: echo, EKM: ekm, OnClientWrite: func(b []byte) {
@@ -390,7 +392,7 @@ func runNego(s negoScn, rawScn json.RawMessage, pk *hlib.PKI, certs map[string]t
 			}
 			return u.ApplyPreset(spec)
 		}
-		if s.NoReneg || s.KSReverse || len(s.ExtraExts) > 0 {
+		if s.NoReneg || s.KSReverse || len(s.ExtraExts) > 0 || len(s.KSList) > 0 {
 			spec, err := tls.UTLSIdToSpec(id)
 			if err != nil {
 				return err
@@ -428,6 +430,13 @@ func runNego(s negoScn, rawScn json.RawMessage, pk *hlib.PKI, certs map[string]t
 					// a custom spec: the parrot's key shares in the opposite order
 					for i, j := 0, len(ks.KeyShares)-1; i < j; i, j = i+1, j-1 {
 						ks.KeyShares[i], ks.KeyShares[j] = ks.KeyShares[j], ks.KeyShares[i]
+					}
+				}
+				if ks, ok := e.(*tls.KeyShareExtension); ok && len(s.KSList) > 0 {
+					// a custom spec: exactly the listed shares (keys generated by ApplyPreset)
+					ks.KeyShares = nil
+					for _, g := range s.KSList {
+						ks.KeyShares = append(ks.KeyShares, tls.KeyShare{Group: tls.CurveID(g)})
 					}
 				}
 			}
